@@ -1719,6 +1719,12 @@ class Interp:
         for p in paths:
             try:
                 node = self.ver.parse_spec(p) if isinstance(p, str) else p
+                from .modset import _root
+                rt = _root(node)
+                if rt is not None and rt in names and env.lookup(rt) is None:
+                    # a local that is still unbound at the loop head (first bound inside the body, e.g.
+                    # `kvs = list(...); kvs.sort()`): the container it will name does not exist yet, nothing to havoc
+                    continue
                 saved = self.spec
                 self.spec = True
                 try:
